@@ -145,7 +145,7 @@ func (r *runner) run() int {
 	ev := newEvidence(r.prop, r.tier, r.seed)
 	kf := loadKnownFindings(filepath.Join(r.verif, "known_findings.json"))
 	exit := 0
-	cfg := interp.Config{Workers: r.workers, Solver: r.solver, TimeoutMs: 10000, MaxPaths: 4000, MaxDecisions: 400, Trace: r.trace,
+	cfg := interp.Config{Workers: r.workers, Solver: r.solver, TimeoutMs: 10000, MaxPaths: 12000, MaxDecisions: 400, Trace: r.trace,
 		CrossSolver: "z3", CrossBudget: 100}
 	if r.tier == "thorough" {
 		cfg.TimeoutMs = 60000
